@@ -177,7 +177,22 @@ pub fn chunk_at(tier: Tier, index: u64) -> Option<Chunk> {
         return None;
     }
     let hi = (lo + CHUNK).min(values.len());
-    Some(Chunk { kind, n, values: values[lo..hi].to_vec(), sized_literals: false })
+    let mut values = values[lo..hi].to_vec();
+    if chunk == 0 {
+        // round 14: values FAR outside every range whose low machine word lies inside it (2^64 + v, 2^65 + v, 3*2^64 + v,
+        // 2^128 + v and their negatives, for v at the in-range landmarks): all must be rejected
+        let mut lows = vec![BigInt::zero(), BigInt::from(1), pow2(n) - 1];
+        if n >= 1 {
+            lows.push(pow2(n - 1));
+        }
+        for base in [pow2(64), pow2(65), pow2(64) * 3, pow2(128)] {
+            for l in &lows {
+                values.push(&base + l);
+                values.push(-(&base + l));
+            }
+        }
+    }
+    Some(Chunk { kind, n, values, sized_literals: false })
 }
 
 pub struct Failure {
@@ -590,7 +605,7 @@ impl Property for C04 {
     fn rule(&self) -> String {
         "ENUMERATED: type in {uN, sN, iN, #dN} x N in 0..=16 x every v in [-2^N-4, 2^N+4] (quick: complete for N <= 13, the +-4 neighbourhood of every boundary \
          -2^N, -2^(N-1), 0, 2^(N-1), 2^N for N = 14..16; thorough: complete for N <= 16), written in rotating forms (decimal, 0x, 0b, (v+1)-1, constant reference, hex \
-         with leading zeros; all of these plus the bitwise NOT of a sized literal, the short slice of a negative operand `(0 - K)`W` and the bitwise operators between one sized and one unsized operand - `0x0 | v`, `v ^ 0b0`, `0xff..f & v`, `v | 0x00` - within +-4 of a boundary); plus #dN with sized literals of every width 1..N+9. Oracle = the closed-form ranges of the \
+         with leading zeros; all of these plus the bitwise NOT of a sized literal, the short slice of a negative operand `(0 - K)`W` and the bitwise operators between one sized and one unsized operand - `0x0 | v`, `v ^ 0b0`, `0xff..f & v`, `v | 0x00` - within +-4 of a boundary); plus, per type and width, values far outside every range whose low machine word lies inside it (2^64 + v, 2^65 + v, 3*2^64 + v, 2^128 + v and their negatives at the in-range landmarks v); plus #dN with sized literals of every width 1..N+9. Oracle = the closed-form ranges of the \
          statement: all in-range values of a chunk are assembled in one program whose output must be the concatenation of the N-bit two's-complement images; each \
          out-of-range value is assembled between two in-range neighbours and must give an error located on its own line and no output. RANDOM part: N in 17..=256, values at each boundary +-0..4; one case in four is a MOVING value: `t after(K)` / `t (K) + here` with `#fn after(n) => n + here`, where the label `here` stands behind an instruction of a short/long family and moves by one after the first pass - the final value decides acceptance and the emitted bits. Every case is non-trivial (it is the boundary table itself); distinct = distinct (type, N, chunk). (v4) HANDED-DOWN values, a third of the moving cases: a value accepted by an outer typed parameter (s/i/u, 4-16 bits) reaches a second typed parameter (u/s/i, 4-20 bits) through a block-local (`y = x` / `asm { emit {y} }`), a function argument, two locals, or textually; accepted iff inside BOTH ranges, emitted as the inner type's image."
             .to_string()
